@@ -13,7 +13,7 @@ pub const UNI: &[char] = &[
 
 /// Text without NUL. Choice 0 is a short plain word.
 pub fn gen_text(t: &mut Tape, extra: &[&str]) -> String {
-    match t.weighted(&[4, 2, 3, 3, if extra.is_empty() { 0 } else { 2 }, 1]) {
+    match t.weighted(&[8, 4, 6, 6, if extra.is_empty() { 0 } else { 4 }, 1]) {
         0 => t.pick(WORDS).to_string(),
         1 => String::new(),
         2 => {
